@@ -262,8 +262,19 @@ impl<'t, 'a> SnipGen<'t, 'a> {
         if depth >= 4 {
             return self.atom();
         }
-        match self.t.weighted(&[6, 2, 2, 2, 2, 2, 1, 1, 1]) {
+        match self.t.weighted(&[6, 2, 2, 2, 2, 2, 1, 1, 1, 3]) {
             0 => self.atom(),
+            9 => {
+                // binary operators, written with and without blanks around them, so that an
+                // operator character is directly followed by a delimiter, a quote or a lifetime
+                let a = self.expr(depth + 1);
+                let b = self.expr(depth + 1);
+                let op = *self.t.pick(&["/", " / ", "*", "-", " - ", "/ ", " /", "%", "+", " + ", "&&", "==", "|", "&"]);
+                if op.contains('/') {
+                    self.tricky = true;
+                }
+                format!("{a}{op}{b}")
+            }
             1 => format!("({})", self.list(depth, ",")),
             2 => format!("[{}]", self.list(depth, ",")),
             3 => {
